@@ -698,11 +698,639 @@ pub mod gc {
     }
 }
 
+// ---------------------------------------------------------------------------
+// LARGE-SCALE sub-checks (C20/large-*): the same statements on inputs whose sizes cross the ladder
+// 255/256/257 .. 2^20+1 (GC content: up to 2^24 + 10^6). Cases are small parameter records expanded
+// deterministically (splitmix64); oracles are linear scans.
+
+pub mod large {
+    use super::*;
+    use crate::oracles::scale::*;
+    use crate::{c1920_bands, c1920_over};
+
+    fn add_band(pass: &mut Pass, labels: &[&'static str; 12], v: usize) {
+        if let Some(b) = c1920_band(v) {
+            pass.add(labels[b]);
+        }
+    }
+    fn add_over(pass: &mut Pass, labels: &[&'static str; 4], v: usize) {
+        for (i, t) in C1920_OVER.iter().enumerate() {
+            if v > *t {
+                pass.add(labels[i]);
+            }
+        }
+    }
+
+    // -----------------------------------------------------------------------
+    pub mod orf {
+        use super::*;
+        use bio::seq_analysis::orf::{Finder, Orf};
+
+        const STARTS: [&[u8; 3]; 3] = [b"ATG", b"GTG", b"TTG"];
+        const STOPS: [&[u8; 3]; 3] = [b"TAA", b"TAG", b"TGA"];
+        /// in-frame filler codons (none is a start or stop codon of the sets above)
+        const FILL: [&[u8; 3]; 4] = [b"GCA", b"AAA", b"GGG", b"TTT"];
+        /// tandem units: length 6 (one frame), 7, 10 and 11 (the ORFs rotate through the three frames), nested starts
+        const UNITS: [&[u8]; 6] = [b"ATGTAA", b"ATGTAAC", b"ATGAAATAGC", b"GTGGCATGAAT", b"ATGATGTAAC", b"CATGGCATGAGTTGAAATAA"];
+
+        #[derive(Serialize, Deserialize, Debug, Clone)]
+        pub struct Gene {
+            /// bases of `C` in front of the gene
+            pub gap: usize,
+            /// consecutive start codons at the front (nested starts sharing one stop)
+            pub starts: usize,
+            /// filler codons of the body
+            pub body: usize,
+            /// every `inner_every`-th body codon is a start codon instead of filler (0 = none)
+            pub inner_every: usize,
+        }
+
+        #[derive(Serialize, Deserialize, Debug, Clone)]
+        pub enum Layout {
+            /// uniform over "ATG" (false) or "ACGT" (true)
+            Random { acgt: bool },
+            /// one of the UNITS repeated
+            Tandem { unit: usize },
+            /// genes one after the other, then `C` up to the length
+            Genes { genes: Vec<Gene> },
+        }
+
+        #[derive(Serialize, Deserialize, Debug, Clone)]
+        pub enum Min {
+            Abs(usize),
+            /// length of the longest frame + d - 3: d = 0 the longest frame must just be reported, 1..=3 it is in
+            /// the slack the statement leaves, 4.. no frame is long enough
+            NearLongest(usize),
+        }
+
+        #[derive(Serialize, Deserialize, Debug, Clone)]
+        pub struct Case {
+            pub n: usize,
+            pub layout: Layout,
+            /// bit i: STARTS[i] / STOPS[i] belongs to the set
+            pub start_mask: u8,
+            pub stop_mask: u8,
+            pub min_len: Min,
+            /// iterate over owned bytes instead of references
+            pub owned: bool,
+            pub seed: u64,
+        }
+
+        pub fn build(c: &Case) -> Vec<u8> {
+            let mut rng = C1920Rng::new(c.seed);
+            let n = c.n;
+            let mut s: Vec<u8> = match &c.layout {
+                Layout::Random { acgt } => rng.fill(if *acgt { b"ACGT" } else { b"ATG" }, n),
+                Layout::Tandem { unit } => {
+                    let u = UNITS[unit % UNITS.len()];
+                    (0..n).map(|i| u[i % u.len()]).collect()
+                }
+                Layout::Genes { genes } => {
+                    let first_start = (0..3).find(|i| c.start_mask >> i & 1 == 1).unwrap_or(0);
+                    let first_stop = (0..3).find(|i| c.stop_mask >> i & 1 == 1).unwrap_or(0);
+                    let mut s = Vec::with_capacity(n);
+                    for g in genes {
+                        s.resize(s.len() + g.gap, b'C');
+                        for _ in 0..g.starts {
+                            s.extend_from_slice(STARTS[first_start]);
+                        }
+                        for j in 0..g.body {
+                            if g.inner_every > 0 && j % g.inner_every == g.inner_every - 1 {
+                                s.extend_from_slice(STARTS[first_start]);
+                            } else {
+                                s.extend_from_slice(FILL[(j + j / 7) % 4]);
+                            }
+                        }
+                        s.extend_from_slice(STOPS[first_stop]);
+                        if s.len() >= n {
+                            break;
+                        }
+                    }
+                    s
+                }
+            };
+            s.resize(n, b'C');
+            s
+        }
+
+        /// every frame (start, end), ascending by start: one backward pass that remembers, per reading frame,
+        /// the end of the nearest stop codon to the right
+        pub fn frames_linear(seq: &[u8], starts: &[[u8; 3]], stops: &[[u8; 3]]) -> Vec<(usize, usize)> {
+            let n = seq.len();
+            let mut out = Vec::new();
+            if n < 3 {
+                return out;
+            }
+            let mut next_end = [usize::MAX; 3];
+            for s in (0..=n - 3).rev() {
+                let cod = [seq[s], seq[s + 1], seq[s + 2]];
+                if stops.contains(&cod) {
+                    next_end[s % 3] = s + 3;
+                } else if starts.contains(&cod) && next_end[s % 3] != usize::MAX {
+                    out.push((s, next_end[s % 3]));
+                }
+            }
+            out.reverse();
+            out
+        }
+
+        /// every reported ORF is a frame of length >= min_len with the right offset, none twice, every frame longer
+        /// than min_len + 2 is there; returns the numbers of frames that must be reported / lie in the slack / are shorter
+        #[allow(clippy::too_many_arguments)]
+        fn judge(ctx: &str, what: &str, seq: &[u8], frames: &[(usize, usize)], starts: &[[u8; 3]], stops: &[[u8; 3]], min_len: usize, got: &[Orf]) -> Result<(usize, usize, usize), Stop> {
+            let n = seq.len();
+            ensure!(got.len() < n + 2, "{}: {} yields more ORFs ({}+) than the sequence has positions (does not terminate?)", ctx, what, got.len());
+            for o in got {
+                ensure!(o.start <= o.end && o.end <= n, "{}: {}: reported {:?} is out of range", ctx, what, o);
+                let len = o.end - o.start;
+                ensure!(len % 3 == 0 && len >= 6, "{}: {}: reported {:?} has length {} (not a multiple of three holding a start and a stop codon)", ctx, what, o, len);
+                ensure!(starts.iter().any(|s| s[..] == seq[o.start..o.start + 3]), "{}: {}: reported {:?} does not begin with a start codon ({:?})", ctx, what, o, lossy(&seq[o.start..o.start + 3]));
+                ensure!(stops.iter().any(|s| s[..] == seq[o.end - 3..o.end]), "{}: {}: reported {:?} does not end with a stop codon ({:?})", ctx, what, o, lossy(&seq[o.end - 3..o.end]));
+                ensure!(
+                    frames.binary_search(&(o.start, o.end)).is_ok(),
+                    "{}: {}: reported {:?} is no frame: the frame of this start (up to the first in-frame stop codon) is {:?}",
+                    ctx, what, o, frames.binary_search_by(|f| f.0.cmp(&o.start)).ok().map(|i| frames[i])
+                );
+                ensure!(len >= min_len, "{}: {}: reported {:?} has length {} < min_len", ctx, what, o, len);
+                ensure!(o.offset as i64 == (o.start % 3) as i64, "{}: {}: reported {:?} carries offset {} but start mod 3 = {}", ctx, what, o, o.offset, o.start % 3);
+            }
+            let mut sorted: Vec<(usize, usize)> = got.iter().map(|o| (o.start, o.end)).collect();
+            sorted.sort_unstable();
+            if let Some(w) = sorted.windows(2).find(|w| w[0] == w[1]) {
+                fail!("{}: {}: ORF {:?} is reported more than once ({} ORFs reported)", ctx, what, w[0], got.len());
+            }
+            let (mut must, mut slack, mut short) = (0usize, 0usize, 0usize);
+            for f in frames {
+                let len = f.1 - f.0;
+                if len > min_len + 2 {
+                    must += 1;
+                    ensure!(sorted.binary_search(f).is_ok(), "{}: {}: frame {:?} of length {} > min_len + 2 is not reported ({} ORFs reported, {} frames in the sequence)", ctx, what, f, len, got.len(), frames.len());
+                } else if len >= min_len {
+                    slack += 1;
+                } else {
+                    short += 1;
+                }
+            }
+            Ok((must, slack, short))
+        }
+
+        pub fn check(c: &Case) -> R {
+            let starts: Vec<[u8; 3]> = (0..3).filter(|i| c.start_mask >> i & 1 == 1).map(|i| *STARTS[i]).collect();
+            let stops: Vec<[u8; 3]> = (0..3).filter(|i| c.stop_mask >> i & 1 == 1).map(|i| *STOPS[i]).collect();
+            ensure!(c.start_mask < 8 && c.stop_mask < 8, "harness: codon masks");
+            let seq = build(c);
+            let n = seq.len();
+            let frames = frames_linear(&seq, &starts, &stops);
+            let mut pass_note = false;
+            if n <= 3000 {
+                let (slow, _) = super::super::orf::frames(&seq, &starts, &stops);
+                ensure!(slow == frames, "harness: the linear frame oracle and the per-start scan disagree for {:?}", c);
+                pass_note = true;
+            }
+            let longest = frames.iter().map(|f| f.1 - f.0).max().unwrap_or(0);
+            let min_len = match c.min_len {
+                Min::Abs(v) => v,
+                Min::NearLongest(d) => (longest + d).saturating_sub(3),
+            };
+            let ctx = format!("{:?} (sequence of {} bases, starts {:?}, stops {:?}, min_len {})", c, n, starts.iter().map(|x| lossy(x)).collect::<Vec<_>>(), stops.iter().map(|x| lossy(x)).collect::<Vec<_>>(), min_len);
+            let finder = Finder::new(starts.iter().collect(), stops.iter().collect(), min_len);
+            let cap = n + 2;
+            let got: Vec<Orf> = if c.owned { finder.find_all(seq.iter().copied()).take(cap).collect() } else { finder.find_all(&seq).take(cap).collect() };
+            let (must, slack, short) = judge(&ctx, "find_all", &seq, &frames, &starts, &stops, min_len, &got)?;
+            // the finder keeps no state between runs: a second iterator started and finished while the first is
+            // suspended; both results are judged like the first
+            if !got.is_empty() {
+                let mut a = finder.find_all(&seq);
+                let head: Vec<Orf> = a.by_ref().take(2).collect();
+                let cut = n.min(4000);
+                let other: Vec<Orf> = finder.find_all(&seq[..cut]).take(cap).collect();
+                let rest: Vec<Orf> = a.take(cap).collect();
+                let joined: Vec<Orf> = head.into_iter().chain(rest).collect();
+                judge(&ctx, "find_all suspended after two ORFs while the same finder ran over another sequence", &seq, &frames, &starts, &stops, min_len, &joined)?;
+                let sub: Vec<(usize, usize)> = frames.iter().copied().filter(|f| f.1 <= cut).collect();
+                judge(&ctx, "the same finder over the first bases (at most 4000) of the sequence", &seq[..cut], &sub, &starts, &stops, min_len, &other)?;
+            }
+
+            // nested starts: the largest number of frames sharing one stop
+            let mut by_end: Vec<usize> = frames.iter().map(|f| f.1).collect();
+            by_end.sort_unstable();
+            let mut nested = 0usize;
+            let mut i = 0;
+            while i < by_end.len() {
+                let mut j = i;
+                while j < by_end.len() && by_end[j] == by_end[i] {
+                    j += 1;
+                }
+                nested = nested.max(j - i);
+                i = j;
+            }
+            let straddle = |p: usize| frames.iter().any(|f| f.1 - f.0 > min_len + 2 && f.0 < p && p < f.1);
+            let diff_frames = { let mut fr = [false; 3]; for f in frames.iter().filter(|f| f.1 - f.0 > min_len + 2) { fr[f.0 % 3] = true; } fr.iter().filter(|x| **x).count() >= 2 };
+            let mut pass = Pass::new(must >= 1 && n > 255);
+            add_band(&mut pass, &c1920_bands!("sequence length"), n);
+            add_band(&mut pass, &c1920_bands!("ORFs reported"), got.len());
+            add_over(&mut pass, &c1920_over!("ORFs reported"), got.len());
+            // every band holds exactly one multiple of three; the label is set by any frame of that length
+            for f in &frames {
+                add_band(&mut pass, &c1920_bands!("length of a frame (bases)"), f.1 - f.0);
+            }
+            add_over(&mut pass, &c1920_over!("longest ORF (bases)"), longest);
+            add_band(&mut pass, &c1920_bands!("nested starts sharing one stop"), nested);
+            add_over(&mut pass, &c1920_over!("nested starts sharing one stop"), nested);
+            add_band(&mut pass, &c1920_bands!("min_len"), min_len);
+            add_band(&mut pass, &c1920_bands!("min_len"), min_len + 2);
+            pass.add_if(frames.iter().any(|f| f.1 - f.0 == min_len + 3 || f.1 - f.0 == min_len + 4 || f.1 - f.0 == min_len + 5), "frame length in min_len+3..=min_len+5 (shortest that must be reported)");
+            pass.add_if(slack > 0, "frame length in min_len..=min_len+2 (slack)");
+            pass.add_if(short > 0, "frame shorter than min_len");
+            pass.add_if(straddle(256) || straddle(512), "a reported ORF straddles position 256 or 512");
+            pass.add_if(straddle(65536), "a reported ORF straddles position 65536");
+            pass.add_if(straddle(131072) || straddle(1 << 19) || straddle(1 << 20), "a reported ORF straddles position 2^17, 2^19 or 2^20");
+            pass.add_if(got.iter().any(|o| o.start > 65536), "ORF starting beyond position 65536");
+            pass.add_if(got.iter().any(|o| o.start > (1 << 20)), "ORF starting beyond position 2^20");
+            pass.add_if(diff_frames, ">=2 ORFs in different frames");
+            pass.add_if(c.owned, "owned items");
+            pass.add_if(pass_note, "linear oracle cross-checked against the per-start scan");
+            pass.add_if(matches!(c.layout, Layout::Tandem { .. }), "tandem repeat");
+            pass.add_if(matches!(c.layout, Layout::Random { .. }), "random sequence");
+            Ok(pass)
+        }
+
+        pub fn cases(t: Tier, seed: u64) -> Vec<Case> {
+            let mut out = Vec::new();
+            let reps = if t == Tier::Quick { 1 } else { 5 };
+            let ladder = c1920_ladder();
+            for rep in 0..reps {
+                for (li, &v) in ladder.iter().enumerate() {
+                    let mut rng = C1920Rng::new(seed ^ ((rep as u64) << 40) ^ ((li as u64) << 20) ^ 0x0f0f);
+                    let big = v > 140_000;
+                    // every scenario stays below about a second even at 2^20+1, so nothing is left out in the quick tier
+                    let heavy_ok = true;
+                    let masks = |rng: &mut C1920Rng| (1 + rng.below(7) as u8, 1 + rng.below(7) as u8);
+                    let mut push = |n: usize, layout: Layout, min_len: Min, rng: &mut C1920Rng, all: bool| {
+                        let (a, b) = if all { (1, 7) } else { masks(rng) };
+                        out.push(Case { n, layout, start_mask: a, stop_mask: b, min_len, owned: rng.below(3) == 0, seed: rng.next() >> 11 });
+                    };
+                    // (1) sequence length = v: random over ATG (many short ORFs in all frames), tandem units
+                    push(v, Layout::Random { acgt: false }, Min::Abs(rng.below(12)), &mut rng, false);
+                    push(v, Layout::Tandem { unit: (li + rep) % 6 }, Min::Abs(rng.below(8)), &mut rng, true);
+                    push(v, Layout::Random { acgt: true }, Min::NearLongest(rng.below(6)), &mut rng, true);
+                    // (2) one ORF of ~v bases (lengths are multiples of three: the three nearest), straddling the
+                    //     multiples of 256 / 65536 it spans, followed by a short one; min_len around its length
+                    {
+                        let codons = (v + 1) / 3; // start + body + stop codons: 3*codons is the multiple of three nearest to v (the one inside the band for the two lower values of a band)
+                        let gap = 2 + rng.below(700);
+                        let genes = vec![Gene { gap, starts: 1, body: codons - 2, inner_every: 0 }, Gene { gap: 5 + rng.below(9), starts: 1, body: 3, inner_every: 0 }];
+                        push(gap + 3 * codons + 60, Layout::Genes { genes }, [Min::Abs(0), Min::NearLongest(rng.below(6))][rng.below(2)].clone(), &mut rng, false);
+                    }
+                    // (3) v nested start codons sharing one stop (v ORFs flushed at once), the first of them v*3+ bases long
+                    if heavy_ok {
+                        let gap = rng.below(300);
+                        let genes = vec![Gene { gap, starts: v, body: 2 + rng.below(5), inner_every: 0 }, Gene { gap: 2, starts: 2, body: 1, inner_every: 0 }];
+                        push(gap + 3 * v + 80, Layout::Genes { genes }, Min::Abs(rng.below(30)), &mut rng, false);
+                    }
+                    // (4) v ORFs in one sequence (tandem unit of 7 or 10 bases: the ORFs rotate through the frames)
+                    if heavy_ok {
+                        let unit = [1usize, 2][rng.below(2)];
+                        push(v * UNITS[unit].len() + rng.below(3), Layout::Tandem { unit }, Min::Abs(rng.below(4)), &mut rng, true);
+                    }
+                    // (5) min_len = v with frames of every length around it: v-4..v+6 contains three or four multiples
+                    //     of three; genes with exactly those lengths, in different frames
+                    if heavy_ok {
+                        let genes: Vec<Gene> = (0..5).map(|j| Gene { gap: 1 + rng.below(4), starts: 1, body: ((v + 3 * j) / 3).saturating_sub(3), inner_every: 0 }).collect();
+                        let total: usize = genes.iter().map(|g| g.gap + 3 * (g.body + 2)).sum();
+                        push(total + 20, Layout::Genes { genes }, Min::Abs(v), &mut rng, false);
+                    }
+                    // (6) long ORF with inner start codons every few codons (nested starts of all lengths), min_len near v/2
+                    if !big {
+                        let every = 2 + rng.below(40);
+                        let genes = vec![Gene { gap: rng.below(100), starts: 1, body: v / 3, inner_every: every }];
+                        push(v + 300, Layout::Genes { genes }, Min::Abs(v / 2), &mut rng, false);
+                    }
+                }
+            }
+            out
+        }
+    }
+
+    // -----------------------------------------------------------------------
+    pub mod revcomp {
+        use super::*;
+        use bio::alphabets::{dna, rna};
+
+        #[derive(Serialize, Deserialize, Debug, Clone)]
+        pub struct Case {
+            pub n: usize,
+            /// 0 nucleotides and ambiguity codes of both cases, 1 all 256 byte values in a cycle, 2 random bytes,
+            /// 3 one symbol, 4 reverse-complement palindrome
+            pub kind: u8,
+            pub rna: bool,
+            pub seed: u64,
+        }
+
+        pub fn check(c: &Case) -> R {
+            let name = if c.rna { "rna" } else { "dna" };
+            let mut table = [0u8; 256];
+            for b in 0..256usize {
+                table[b] = comp::expected(b as u8, c.rna);
+            }
+            let mut rng = C1920Rng::new(c.seed);
+            let n = c.n;
+            let codes: &[u8] = if c.rna { b"ACGUacguRYSWKMBDHVNZryswkmbdhvnzT" } else { b"ACGTacgtRYSWKMBDHVNZryswkmbdhvnzU" };
+            let s: Vec<u8> = match c.kind {
+                0 => rng.fill(codes, n),
+                1 => (0..n).map(|i| (i % 256) as u8).collect(),
+                2 => (0..n).map(|_| rng.next() as u8).collect(),
+                3 => vec![codes[rng.below(codes.len())]; n],
+                _ => {
+                    let h = rng.fill(&codes[..8], n / 2);
+                    let mut s = h.clone();
+                    if n % 2 == 1 {
+                        s.push(b'N');
+                    }
+                    s.extend(h.iter().rev().map(|&b| table[b as usize]));
+                    s
+                }
+            };
+            ensure!(s.len() == n, "harness: length");
+            let rc = if c.rna { rna::revcomp(&s) } else { dna::revcomp(&s) };
+            ensure!(rc.len() == n, "{}::revcomp of {} bytes ({:?}) has {} bytes", name, n, c, rc.len());
+            if let Some(i) = (0..n).find(|&i| rc[i] != table[s[n - 1 - i] as usize]) {
+                fail!("{}::revcomp of {} bytes ({:?}): byte {} of the result is {} but the complement of input byte {} ({}) is {}", name, n, c, i, rc[i], n - 1 - i, s[n - 1 - i], table[s[n - 1 - i] as usize]);
+            }
+            let rc_owned = if c.rna { rna::revcomp(s.clone()) } else { dna::revcomp(s.clone()) };
+            ensure!(rc_owned == rc, "{}::revcomp over owned bytes differs from the one over references ({:?})", name, c);
+            let back = if c.rna { rna::revcomp(&rc) } else { dna::revcomp(&rc) };
+            if let Some(i) = (0..n.max(back.len())).find(|&i| back.get(i) != s.get(i)) {
+                fail!("{}::revcomp twice does not restore the sequence ({:?}): first difference at byte {}: {:?} vs {:?}", name, c, i, back.get(i), s.get(i));
+            }
+            let mut pass = Pass::new(rc != s && n > 255);
+            add_band(&mut pass, &c1920_bands!("sequence length"), n);
+            pass.add_if(rc == s && n > 0, "reverse-complement palindrome");
+            pass.add_if(c.kind == 1 || c.kind == 2, "all byte values");
+            pass.add_if(c.rna, "rna");
+            pass.add_if(!c.rna, "dna");
+            Ok(pass)
+        }
+
+        pub fn cases(t: Tier, seed: u64) -> Vec<Case> {
+            let mut out = Vec::new();
+            let reps = if t == Tier::Quick { 1 } else { 6 };
+            for rep in 0..reps {
+                for (li, &v) in c1920_ladder().iter().enumerate() {
+                    let mut rng = C1920Rng::new(seed ^ ((rep as u64) << 40) ^ ((li as u64) << 20) ^ 0x7ec0);
+                    out.push(Case { n: v, kind: ((li + rep) % 5) as u8, rna: (li + rep) % 2 == 0, seed: rng.next() >> 11 });
+                    out.push(Case { n: v, kind: ((li + rep + 2) % 5) as u8, rna: (li + rep) % 2 == 1, seed: rng.next() >> 11 });
+                }
+            }
+            out
+        }
+    }
+
+    // -----------------------------------------------------------------------
+    pub mod alpha {
+        use super::*;
+        use bio::alphabets::{self, Alphabet, RankTransform};
+
+        #[derive(Serialize, Deserialize, Debug, Clone)]
+        pub enum Symbols {
+            /// all 256 byte values except the listed ones
+            AllBut(B),
+            /// off + j*stride for j < sigma (stride odd)
+            Stride { sigma: usize, off: u8, stride: u8 },
+            /// 0 english lower, 1 english upper, 2 dna iupac, 3 protein iupac
+            Named(u8),
+        }
+
+        #[derive(Serialize, Deserialize, Debug, Clone)]
+        pub struct Case {
+            pub symbols: Symbols,
+            pub n: usize,
+            /// 0 random members, 1 members in ascending cycle, 2 the largest member only
+            pub kind: u8,
+            /// where a non-member is planted for the second half of the check (clamped to the last position)
+            pub bad_at: usize,
+            pub seed: u64,
+        }
+
+        pub fn check(c: &Case) -> R {
+            let (what, list, a): (String, Vec<u8>, Alphabet) = match &c.symbols {
+                Symbols::AllBut(miss) => {
+                    let l: Vec<u8> = (0u16..256).map(|b| b as u8).filter(|b| !miss.contains(b)).collect();
+                    (format!("Alphabet::new(all bytes but {:?})", miss), l.clone(), Alphabet::new(&l))
+                }
+                Symbols::Stride { sigma, off, stride } => {
+                    ensure!(*sigma >= 1 && *sigma <= 256 && stride % 2 == 1, "harness: stride alphabet");
+                    let l: Vec<u8> = (0..*sigma).map(|j| off.wrapping_add((j as u8).wrapping_mul(*stride))).collect();
+                    (format!("Alphabet::new({} bytes {}+j*{})", sigma, off, stride), l.clone(), Alphabet::new(&l))
+                }
+                Symbols::Named(k) => match k {
+                    0 => ("english_ascii_lower_alphabet".to_string(), (b'a'..=b'z').collect(), alphabets::english_ascii_lower_alphabet()),
+                    1 => ("english_ascii_upper_alphabet".to_string(), (b'A'..=b'Z').collect(), alphabets::english_ascii_upper_alphabet()),
+                    2 => ("dna::iupac_alphabet".to_string(), b"ACGTRYSWKMBDHVNZacgtryswkmbdhvnz".to_vec(), alphabets::dna::iupac_alphabet()),
+                    _ => ("protein::iupac_alphabet".to_string(), b"ABCDEFGHIKLMNPQRSTVWXYZabcdefghiklmnpqrstvwxyz".to_vec(), alphabets::protein::iupac_alphabet()),
+                },
+            };
+            let mut member = [false; 256];
+            for &b in &list {
+                member[b as usize] = true;
+            }
+            let sorted: Vec<u8> = (0u16..256).filter(|&b| member[b as usize]).map(|b| b as u8).collect();
+            ensure!(!sorted.is_empty(), "harness: empty alphabet");
+            ensure!(a.len() == sorted.len(), "{}: len() = {} but there are {} distinct symbols", what, a.len(), sorted.len());
+            ensure!(a.max_symbol() == sorted.last().copied(), "{}: max_symbol() = {:?}, expected {:?}", what, a.max_symbol(), sorted.last());
+            let rt = RankTransform::new(&a);
+            let mut rank_of = [0u8; 256];
+            for (i, &b) in sorted.iter().enumerate() {
+                rank_of[b as usize] = i as u8;
+                let r = rt.get(b);
+                ensure!(r as usize == i, "{}: rank of symbol {} is {}, but it is the {}-th smallest symbol", what, b, r, i);
+            }
+            let mut rng = C1920Rng::new(c.seed);
+            let n = c.n;
+            ensure!(n >= 1, "harness: empty text");
+            let mut text: Vec<u8> = match c.kind {
+                0 => rng.fill(&sorted, n),
+                1 => (0..n).map(|i| sorted[i % sorted.len()]).collect(),
+                _ => vec![*sorted.last().unwrap(); n],
+            };
+            // ---- a word: accepted, transformed symbol by symbol
+            ensure!(a.is_word(&text), "{}: is_word rejects a text of {} members ({:?})", what, n, c);
+            ensure!(a.is_word(text.iter().copied()), "{}: is_word over owned bytes rejects a text of {} members ({:?})", what, n, c);
+            let tr = rt.transform(&text);
+            ensure!(tr.len() == n, "{}: transform of {} symbols has {} ranks ({:?})", what, n, tr.len(), c);
+            if let Some(i) = (0..n).find(|&i| tr[i] != rank_of[text[i] as usize]) {
+                fail!("{}: transform ({:?}): rank {} at position {} for the symbol {}, expected {}", what, c, tr[i], i, text[i], rank_of[text[i] as usize]);
+            }
+            // ---- one non-member at the chosen position: rejected
+            let non_members: Vec<u8> = (0u16..256).map(|b| b as u8).filter(|b| !member[*b as usize]).collect();
+            let mut planted = false;
+            if !non_members.is_empty() {
+                let x = non_members[rng.below(non_members.len())];
+                let at = c.bad_at.min(n - 1);
+                text[at] = x;
+                planted = true;
+                ensure!(!a.is_word(&text), "{}: is_word accepts a text of {} symbols whose symbol {} (position {}) is no member ({:?})", what, n, x, at, c);
+                ensure!(!a.is_word(text.iter().copied()), "{}: is_word over owned bytes accepts a text of {} symbols whose symbol {} (position {}) is no member ({:?})", what, n, x, at, c);
+            }
+            let mut pass = Pass::new(sorted.len() >= 2 && n > 255);
+            add_band(&mut pass, &c1920_bands!("text length"), n);
+            if planted {
+                add_band(&mut pass, &c1920_bands!("position of the only non-member + 1"), c.bad_at.min(n - 1) + 1);
+                pass.add_if(c.bad_at >= n - 1, "only the last symbol is a non-member");
+            }
+            pass.add_if(sorted.len() == 256, "alphabet of size 256");
+            pass.add_if(sorted.len() == 255, "alphabet of size 255");
+            pass.add_if(sorted.len() == 1, "alphabet of size 1");
+            pass.add_if(matches!(c.symbols, Symbols::Named(_)), "library alphabet");
+            Ok(pass)
+        }
+
+        pub fn cases(t: Tier, seed: u64) -> Vec<Case> {
+            let mut out = Vec::new();
+            let reps = if t == Tier::Quick { 1 } else { 6 };
+            for rep in 0..reps {
+                for (li, &v) in c1920_ladder().iter().enumerate() {
+                    let mut rng = C1920Rng::new(seed ^ ((rep as u64) << 40) ^ ((li as u64) << 20) ^ 0xa1fa);
+                    let syms = |rng: &mut C1920Rng, j: usize| match j % 6 {
+                        0 => Symbols::AllBut(B(vec![])),
+                        1 => Symbols::AllBut(B(vec![rng.next() as u8])),
+                        2 => Symbols::Stride { sigma: 1 + rng.below(255), off: rng.next() as u8, stride: (rng.below(128) * 2 + 1) as u8 },
+                        3 => Symbols::Named(rng.below(4) as u8),
+                        4 => Symbols::AllBut(B((0..1 + rng.below(100)).map(|_| rng.next() as u8).collect())),
+                        _ => Symbols::Stride { sigma: [1usize, 2, 128, 255][rng.below(4)], off: rng.next() as u8, stride: (rng.below(128) * 2 + 1) as u8 },
+                    };
+                    // text length = v, the non-member last or anywhere; and a longer text with the non-member at position v-1
+                    let s = syms(&mut rng, li + rep);
+                    out.push(Case { symbols: s, n: v, kind: ((li + rep) % 3) as u8, bad_at: if rng.below(2) == 0 { v - 1 } else { rng.below(v) }, seed: rng.next() >> 11 });
+                    // never the full byte alphabet here: a non-member must exist
+                    let j = 1 + (li + rep + rng.below(5)) % 5;
+                    let s = syms(&mut rng, j);
+                    out.push(Case { symbols: s, n: v + 1 + rng.below(v), kind: ((li + rep + 1) % 3) as u8, bad_at: v - 1, seed: rng.next() >> 11 });
+                }
+            }
+            out
+        }
+    }
+
+    // -----------------------------------------------------------------------
+    pub mod gc {
+        use super::*;
+        use bio::seq_analysis::gc::{gc3_content, gc_content};
+
+        #[derive(Serialize, Deserialize, Debug, Clone)]
+        pub struct Case {
+            pub n: usize,
+            /// 0 random ACGT, 1 random over nucleotides of both cases and other bytes, 2 first half G second half T,
+            /// 3 only G/C, 4 no G/C, 5 "GAT" repeated (gc3 = 1, gc = 1/3), 6 "ATG" repeated (gc3 = 0),
+            /// 7 exactly `gc` G/C symbols at the front, 8 exactly `gc` G/C symbols spread evenly
+            pub kind: u8,
+            pub gc: usize,
+            pub seed: u64,
+        }
+
+        fn is_gc(b: u8) -> bool {
+            matches!(b, b'G' | b'C' | b'g' | b'c')
+        }
+
+        pub fn check(c: &Case) -> R {
+            let n = c.n;
+            ensure!(n >= 1, "harness: empty sequence");
+            let mut rng = C1920Rng::new(c.seed);
+            let g = c.gc.min(n);
+            let s: Vec<u8> = match c.kind {
+                0 => rng.fill(b"ACGT", n),
+                1 => rng.fill(b"ACGTacgtNnSsUu-*\x00\xff", n),
+                2 => (0..n).map(|i| if i < n / 2 { b'G' } else { b'T' }).collect(),
+                3 => rng.fill(b"GCgc", n),
+                4 => rng.fill(b"ATatNn", n),
+                5 => (0..n).map(|i| b"GAT"[i % 3]).collect(),
+                6 => (0..n).map(|i| b"ATG"[i % 3]).collect(),
+                7 => (0..n).map(|i| if i < g { b"GCgc"[i % 4] } else { b'A' }).collect(),
+                _ => {
+                    // position i is G/C iff floor((i+1)*g/n) > floor(i*g/n): exactly g of them
+                    (0..n).map(|i| if ((i as u128 + 1) * g as u128 / n as u128) > (i as u128 * g as u128 / n as u128) { b'C' } else { b'T' }).collect()
+                }
+            };
+            let n_gc = s.iter().filter(|&&b| is_gc(b)).count();
+            if c.kind >= 7 {
+                ensure!(n_gc == g, "harness: {} G/C symbols generated instead of {}", n_gc, g);
+            }
+            let expect = n_gc as f64 / n as f64;
+            let got = gc_content(&s);
+            ensure!((got as f64 - expect).abs() <= 1e-6, "gc_content of {} symbols ({:?}) = {}, expected {}/{} = {}", n, c, got, n_gc, n, expect);
+            let got_owned = gc_content(s.iter().copied());
+            ensure!((got_owned as f64 - expect).abs() <= 1e-6, "gc_content over owned bytes of {} symbols ({:?}) = {}, expected {}/{} = {}", n, c, got_owned, n_gc, n, expect);
+            let n3_total = (n + 2) / 3;
+            let n3 = s.iter().step_by(3).filter(|&&b| is_gc(b)).count();
+            let expect3 = n3 as f64 / n3_total as f64;
+            let got3 = gc3_content(&s);
+            ensure!((got3 as f64 - expect3).abs() <= 1e-6, "gc3_content of {} symbols ({:?}) = {}, expected {}/{} = {} (positions 0,3,6,..)", n, c, got3, n3, n3_total, expect3);
+            let mut pass = Pass::new(n_gc > 0 && n_gc < n && n > 255);
+            add_band(&mut pass, &c1920_bands!("sequence length"), n);
+            add_band(&mut pass, &c1920_bands!("G/C symbols"), n_gc);
+            add_band(&mut pass, &c1920_bands!("symbols counted by gc3"), n3_total);
+            pass.add_if(n >= (1 << 24) - 1 && n <= (1 << 24) + 1, "sequence length in 2^24-1..=2^24+1");
+            pass.add_if(n > (1 << 24) + 1, "sequence length > 2^24+1");
+            pass.add_if(n_gc >= (1 << 24) - 1 && n_gc <= (1 << 24) + 1, "G/C symbols in 2^24-1..=2^24+1");
+            pass.add_if(n_gc > (1 << 24) + 1, "G/C symbols > 2^24+1");
+            pass.add_if((expect - expect3).abs() > 1e-6, "gc3 differs from gc");
+            pass.add_if(n_gc == 0, "no G/C");
+            pass.add_if(n_gc == n, "only G/C");
+            Ok(pass)
+        }
+
+        pub fn cases(t: Tier, seed: u64) -> Vec<Case> {
+            let mut out = Vec::new();
+            let reps = if t == Tier::Quick { 1 } else { 4 };
+            for rep in 0..reps {
+                for (li, &v) in c1920_ladder().iter().enumerate() {
+                    let mut rng = C1920Rng::new(seed ^ ((rep as u64) << 40) ^ ((li as u64) << 20) ^ 0x6c6c);
+                    // sequence length = v
+                    out.push(Case { n: v, kind: ((li + rep) % 7) as u8, gc: 0, seed: rng.next() >> 11 });
+                    // exactly v G/C symbols in a longer sequence (dense at the front / spread out)
+                    out.push(Case { n: v + 1 + rng.below(2 * v), kind: 7 + ((li + rep) % 2) as u8, gc: v, seed: rng.next() >> 11 });
+                    // 3v-2..3v symbols: gc3 counts exactly v of them
+                    out.push(Case { n: 3 * v - rng.below(3), kind: [0u8, 5, 6, 1][(li + rep) % 4], gc: 0, seed: rng.next() >> 11 });
+                }
+                // beyond the 24-bit mantissa of f32: counts are kept as integers and converted once, so the stated
+                // accuracy (1e-6 absolute) still holds: three roundings of relative size 2^-24 on a ratio <= 1
+                let mut rng = C1920Rng::new(seed ^ ((rep as u64) << 40) ^ 0x2424);
+                let p24 = 1usize << 24;
+                for (j, n) in [p24 - 1, p24, p24 + 1].into_iter().enumerate() {
+                    out.push(Case { n, kind: [2u8, 0, 3][(j + rep) % 3], gc: 0, seed: rng.next() >> 11 });
+                }
+                // well beyond 2^24 G/C symbols (a count kept in f32 would stop growing at 2^24), and a mixed text
+                out.push(Case { n: p24 + 1_000_003 + rng.below(1000), kind: 3, gc: 0, seed: rng.next() >> 11 });
+                out.push(Case { n: p24 + 1_000_003 + rng.below(1000), kind: 1, gc: 0, seed: rng.next() >> 11 });
+                for (j, g) in [p24 - 1, p24, p24 + 1].into_iter().enumerate() {
+                    out.push(Case { n: g + 5 + rng.below(1 << 20), kind: 7 + ((j + rep) % 2) as u8, gc: g, seed: 0 });
+                }
+                if t == Tier::Thorough {
+                    out.push(Case { n: (1 << 25) + 1 + rng.below(1000), kind: 2, gc: 0, seed: 0 });
+                    out.push(Case { n: 3 * p24 + 1 + rng.below(3), kind: [0u8, 5][rep % 2], gc: 0, seed: rng.next() >> 11 });
+                }
+            }
+            out
+        }
+    }
+}
+
+/// every band of the given parameters (the first `upto` bands of each) plus single labels, as a static list
+fn large_must(bands: &[(&[&'static str; 12], usize)], singles: &[&'static str]) -> &'static [&'static str] {
+    let mut v: Vec<&'static str> = Vec::new();
+    for (labels, upto) in bands {
+        v.extend(labels[..*upto].iter().copied());
+    }
+    v.extend(singles.iter().copied());
+    Box::leak(v.into_boxed_slice())
+}
+
 pub fn property() -> Property {
     Property {
         id: "C20",
-        rule: "orf: sequences over ATG/ACGT (random or assembled from start/stop/filler codons) with start set within {ATG,GTG,TTG} and stop set within {TAA,TAG,TGA}, and sequences over 2-3 letters or all bytes with codon sets cut out of the sequence or random (sets disjoint, possibly empty), min_len absolute 0..60 or placed around the length of an existing frame; oracle = per start codon the first in-frame stop; every reported ORF must be such a frame with length (stop codon included) >= min_len and offset = start mod 3, no ORF twice, every frame longer than min_len+2 reported; exhaustive: all sequences over ATG up to length 8 (11 thorough) and over ab up to 13 (17). complement: all 256 bytes for DNA and RNA against a table derived from IUPAC base sets, involution, case; revcomp on random byte strings twice = identity. alphabet: random symbol lists (size 0, 1, small, 100+, all 256) and the eight library alphabets: len, is_empty, max_symbol, is_word on every single byte and on texts with/without a planted non-member, rank transform = position in the sorted symbol list. gc: gc_content = (#G/C either case)/len, gc3 over positions 0,3,6... Non-trivial = orf: at least two ORFs that must be reported lying in different frames or sharing a stop (nested starts); complement: nucleotide code that changes; revcomp: length >= 2 with a changing symbol; alphabet: >= 2 symbols and a non-empty accepted text; gc: mixed content. Distinct = distinct serialised case.",
+        rule: "orf: sequences over ATG/ACGT (random or assembled from start/stop/filler codons) with start set within {ATG,GTG,TTG} and stop set within {TAA,TAG,TGA}, and sequences over 2-3 letters or all bytes with codon sets cut out of the sequence or random (sets disjoint, possibly empty), min_len absolute 0..60 or placed around the length of an existing frame; oracle = per start codon the first in-frame stop; every reported ORF must be such a frame with length (stop codon included) >= min_len and offset = start mod 3, no ORF twice, every frame longer than min_len+2 reported; exhaustive: all sequences over ATG up to length 8 (11 thorough) and over ab up to 13 (17). complement: all 256 bytes for DNA and RNA against a table derived from IUPAC base sets, involution, case; revcomp on random byte strings twice = identity. alphabet: random symbol lists (size 0, 1, small, 100+, all 256) and the eight library alphabets: len, is_empty, max_symbol, is_word on every single byte and on texts with/without a planted non-member, rank transform = position in the sorted symbol list. gc: gc_content = (#G/C either case)/len, gc3 over positions 0,3,6... Non-trivial = orf: at least two ORFs that must be reported lying in different frames or sharing a stop (nested starts); complement: nucleotide code that changes; revcomp: length >= 2 with a changing symbol; alphabet: >= 2 symbols and a non-empty accepted text; gc: mixed content. Distinct = distinct serialised case. LARGE-SCALE (C20/large-orf, large-revcomp, large-alphabet, large-gc): a deterministic list of parameter records (sizes fixed by the ladder 255,256,257 .. 65535..65537, 70000, 131071..131073, 2^19+-1, 2^20+-1; contents from the run seed via splitmix64), spread over worker shards, every ladder value in every run. large-orf: per ladder value v: sequence length v (random over ATG / ACGT, tandem units of 6..20 bases), one ORF of ~v bases behind a random gap (straddling the multiples of 256 / 65536 it spans), v nested start codons sharing one stop, v ORFs in one sequence (tandem unit of 7 or 10 bases rotating through the frames), min_len = v with frames of every length around it, long ORF with inner start codons; start/stop sets are random non-empty subsets of {ATG,GTG,TTG} / {TAA,TAG,TGA}; oracle: one backward pass keeping per frame the nearest stop to the right (cross-checked against the per-start scan when n <= 3000); same verdict rules as C20/orf; additionally an iterator suspended while the same finder runs over another sequence. large-revcomp: length v, nucleotides / all 256 bytes / palindromes, DNA and RNA, against the IUPAC-derived table, twice = identity. large-alphabet: text length v and a single non-member at position v-1 (or last / anywhere) for alphabets of 1..256 symbols and four library alphabets: is_word true without and false with the non-member, transform = ranks. large-gc: length v, exactly v G/C symbols, exactly v symbols counted by gc3, and lengths / G/C counts at 2^24-1..2^24+1 and 2^24+10^6.",
         assumptions: &[
+            "large-gc keeps the 1e-6 absolute tolerance beyond 2^24 symbols: the counts are integers converted to f32 once, so the result carries three roundings of relative size 2^-24 (two conversions, one division) on a ratio <= 1, i.e. an error below 2e-7 for every length below 2^63",
             "start and stop codon sets are disjoint (a codon that is both would be its own stop; the property does not define that)",
             "ORF length counts the stop codon (end - start), as the reported coordinates do",
             "GC content is checked on non-empty sequences only (0/0 otherwise); g and c count as G/C",
@@ -735,6 +1363,68 @@ pub fn property() -> Property {
             Box::new(ExhSub { name: "C20/complement-exhaustive", enumerate: comp::enumerate_bytes, check: comp::check_byte, must_reach: &["lower-case code", "non-nucleotide byte", "self-complementary code"] }),
             Box::new(PropSub { name: "C20/revcomp", quick: 240_000, thorough: 2_000_000, shards_quick: 16, shards_thorough: 8, strat: comp::strat_seq, check: comp::check_seq, must_reach: &["lower-case nucleotides", "non-nucleotide bytes", "rna", "dna"], watch: false }),
             Box::new(PropSub { name: "C20/alphabet", quick: 180_000, thorough: 1_500_000, shards_quick: 16, shards_thorough: 8, strat: alpha::strat, check: alpha::check, must_reach: &["alphabet of size 1", "alphabet of size 256", "empty alphabet", "text with a non-member", "library alphabet"], watch: false }),
+            Box::new(crate::oracles::scale::C1920LadderSub {
+                name: "C20/large-orf",
+                cases: large::orf::cases,
+                check: large::orf::check,
+                cost: |c| c.n as u64 + 2000,
+                shards_quick: 16,
+                shards_thorough: 16,
+                must_reach: large_must(
+                    &[
+                        (&crate::c1920_bands!("sequence length"), 12),
+                        (&crate::c1920_bands!("ORFs reported"), 12),
+                        (&crate::c1920_bands!("length of a frame (bases)"), 12),
+                        (&crate::c1920_bands!("nested starts sharing one stop"), 12),
+                        (&crate::c1920_bands!("min_len"), 12),
+                    ],
+                    &[
+                        "ORFs reported > 65536",
+                        "longest ORF (bases) > 2^20",
+                        "nested starts sharing one stop > 65536",
+                        "frame length in min_len+3..=min_len+5 (shortest that must be reported)",
+                        "frame length in min_len..=min_len+2 (slack)",
+                        "frame shorter than min_len",
+                        "a reported ORF straddles position 256 or 512",
+                        "a reported ORF straddles position 65536",
+                        "a reported ORF straddles position 2^17, 2^19 or 2^20",
+                        "ORF starting beyond position 2^20",
+                        ">=2 ORFs in different frames",
+                        "owned items",
+                        "linear oracle cross-checked against the per-start scan",
+                    ],
+                ),
+            }),
+            Box::new(crate::oracles::scale::C1920LadderSub {
+                name: "C20/large-revcomp",
+                cases: large::revcomp::cases,
+                check: large::revcomp::check,
+                cost: |c| c.n as u64 + 2000,
+                shards_quick: 2,
+                shards_thorough: 4,
+                must_reach: large_must(&[(&crate::c1920_bands!("sequence length"), 12)], &["rna", "dna", "all byte values", "reverse-complement palindrome"]),
+            }),
+            Box::new(crate::oracles::scale::C1920LadderSub {
+                name: "C20/large-alphabet",
+                cases: large::alpha::cases,
+                check: large::alpha::check,
+                cost: |c| c.n as u64 + 2000,
+                shards_quick: 2,
+                shards_thorough: 4,
+                must_reach: large_must(&[(&crate::c1920_bands!("text length"), 12), (&crate::c1920_bands!("position of the only non-member + 1"), 12)], &["alphabet of size 256", "library alphabet", "only the last symbol is a non-member"]),
+            }),
+            Box::new(crate::oracles::scale::C1920LadderSub {
+                name: "C20/large-gc",
+                cases: large::gc::cases,
+                check: large::gc::check,
+                cost: |c| c.n as u64 + 2000,
+                shards_quick: 8,
+                shards_thorough: 16,
+                must_reach: large_must(
+                    &[(&crate::c1920_bands!("sequence length"), 12), (&crate::c1920_bands!("G/C symbols"), 12), (&crate::c1920_bands!("symbols counted by gc3"), 12)],
+                    &["sequence length in 2^24-1..=2^24+1", "sequence length > 2^24+1", "G/C symbols in 2^24-1..=2^24+1", "gc3 differs from gc"],
+                ),
+            }),
             Box::new(PropSub { name: "C20/gc", quick: 240_000, thorough: 2_000_000, shards_quick: 16, shards_thorough: 8, strat: gc::strat, check: gc::check, must_reach: &["lower-case g/c", "gc3 differs from gc", "length 1"], watch: false }),
         ],
     }
